@@ -121,6 +121,7 @@ type execSpec struct {
 	rec      *Recorder
 	fmtTag   *string
 	ctxVals  map[string]any // what this call passes through WithCtxValue
+	optTerms []string       // the options as model terms, in the order passed
 	factory  func() any // history steps only: a front-end request whose body cannot be decoded
 }
 
@@ -144,11 +145,13 @@ func (g *Gen) execSpecFor(n *Node) *execSpec {
 	setCtx := func(k string, v any) {
 		e.ctxVals[k] = v
 		e.opts = append(e.opts, z.WithCtxValue(k, v))
+		e.optTerms = append(e.optTerms, fmt.Sprintf("OCtx %s %s", CoqStr(k), CoqStr(fmt.Sprint(v))))
 	}
 	if g.R.Fork(0x5ca1ab1e).P(35) {
 		// an option value created once for the whole process and passed to many calls, ahead of the call's own options
 		e.ctxVals["k8"] = "shared"
 		e.opts = append(e.opts, sharedCtxOpt)
+		e.optTerms = append(e.optTerms, `OCtx "k8" "shared"`)
 	}
 	if g.R.P(45) {
 		setCtx("k1", fmt.Sprintf("v%d", g.R.Intn(100)))
@@ -166,6 +169,7 @@ func (g *Gen) execSpecFor(n *Node) *execSpec {
 		tag := fmt.Sprintf("F%d:", g.R.Intn(100))
 		e.fmtTag = &tag
 		e.opts = append(e.opts, z.WithIssueFormatter(func(i *z.ZogIssue, c z.Ctx) { i.SetMessage(tag + i.Code) }))
+		e.optTerms = append(e.optTerms, "OFmt "+CoqStr(tag))
 	}
 	return e
 }
@@ -376,6 +380,8 @@ func NewHistoryCase(g *Gen, id int) (*Case, []string, string) {
 	c.DataCoq = probeData
 	c.SkipModel = customMap
 	c.Obs = after
+	c.Opts = probe.optTerms
+	c.CtxViews = ctxViews(after.Calls)
 	c.Repeats = []string{c.Obs.canon(n)}
 	ids := map[int]*Node{}
 	indexIDs(n, ids)
